@@ -9,6 +9,7 @@ suite does not notice - runs every quick check with VERIF_REPO pointing at the c
   python3 tools/mutate.py --n 120 --seed 1 [--repo DIR] [--checks C01,C02,...]
 """
 import argparse, json, os, random, re, subprocess, sys, time, glob
+os.environ.setdefault("VERIF_EVIDENCE_DIR", "/var/tmp/verif-scratch-evidence"); os.makedirs(os.environ["VERIF_EVIDENCE_DIR"], exist_ok=True)   # never overwrite /verif/evidence from a run against a modified tree
 
 VERIF = os.path.dirname(os.path.dirname(os.path.abspath(__file__)))
 
